@@ -52,7 +52,12 @@ def main():
         machinery_error('no check module for %s: %s' % (pid, e))
     rec = None
     if a.replay:
-        rec = {'path': os.path.abspath(a.replay), 'data': json.load(open(a.replay))}
+        try:
+            rec = {'path': os.path.abspath(a.replay), 'data': json.load(open(a.replay))}
+        except (OSError, ValueError) as e:
+            machinery_error('replay file %s cannot be read: %s' % (a.replay, e))
+        if rec['data'].get('property', pid) != pid:
+            machinery_error('replay file %s belongs to property %s, not %s' % (a.replay, rec['data'].get('property'), pid))
         os.environ['VERIF_SEED'] = str(rec['data'].get('seed', 0))
         tr = get_tier(rec['data'].get('tier'))
         show_recorded(rec)
